@@ -68,8 +68,9 @@ def task_set_determinants(pr, repo):
     pr.under_contract(fi)
     for labels in (['L0', 'L1', 'L2'], ['L0', 'L0', 'L2'], ['L0', 'L0', 'L0']):
         def thunk(ex, ctx, labels=labels):
+            # titratable flags are arbitrary: under a titrate-only list unlisted groups are not titratable but every pair still interacts
             gs = [C02.mkgroup(repo, 'g%d' % i, (0, 0, 0), label=labels[i], type='COO', covalently_coupled_groups=[],
-                              x='real', y='real', z='real') for i in range(3)]
+                              x='real', y='real', z='real', titratable=B('titratable_%d' % i)) for i in range(3)]
             dist = {}
             seen = []
 
